@@ -106,6 +106,8 @@ def make_symbolic(I, sh, name):
                 fields[fn] = make_symbolic(I, fs, '%s_%s' % (name, fn))
             return I.alloc(ObjCell(cls, fields))
         return SymObj(I.fresh_const(name, ObjS), cls)
+    if k == 'new':
+        return I.alloc(ObjCell(kw['cls'], {}))
     if k == 'dict':
         return I.alloc(DictCell({fn: make_symbolic(I, fs, '%s_%s' % (name, fn)) for fn, fs in kw['fields'].items()}))
     if k == 'const':
